@@ -205,9 +205,15 @@ def build_argv(rng, rec, tmp, idx, allow_files=True, in_process=True):
     if meta["quiet"]:
         argv.append(rng.choice(("-q", "--quiet")))
     meta["O"] = meta["o"] = meta["j"] = None
+    meta["O_unencodable"] = None
     if allow_files:
         r = rng.random()
-        if r < 0.3:
+        if r < 0.05:
+            # a compressed format nobody can encode here (no ffmpeg/avconv/sox): the tool warns on stderr, keeps the wav it
+            # wrote, and still prints exactly the detections on stdout
+            meta["O_unencodable"] = os.path.join(tmp, f"stream{idx}." + rng.choice(("ogg", "mp3", "flac")))
+            argv += [rng.choice(("-O", "--save-stream")), meta["O_unencodable"]]
+        elif r < 0.3:
             meta["O"] = os.path.join(tmp, f"stream{idx}.wav")
             argv += [rng.choice(("-O", "--save-stream")), meta["O"]]
             if rng.random() < 0.4:
@@ -347,6 +353,8 @@ def check_cli(ctx, rec, argv, kw, meta, res, mode):
         return
     w = {"case": case, "rc": res["rc"], "stderr": res["stderr"][-300:]}
     ctx.count("cli_runs_" + mode)
+    if meta.get("O_unencodable"):
+        ctx.count("runs_with_unencodable_save_stream_format")
     ctx.count("input_" + meta["kind"])
     if res["threads_left"]:
         ctx.violation("worker-threads-alive-after-main-returned", dict(w, threads=res["threads_left"]))
@@ -510,7 +518,7 @@ def inconclusive(merged, tier):
     c = merged["counters"]
     need = ["cli_runs_in_process", "cli_runs_subprocess", "lines_checked", "times_checked", "quiet_runs", "j_without_O_runs",
             "O_files_checked", "j_files_checked", "o_dirs_checked", "formatter_values", "formatter_bad_directives",
-            "bad_time_format_runs", "input_raw", "input_wav", "input_stdin", "stdin_fed_through_a_real_pipe"]
+            "bad_time_format_runs", "input_raw", "input_wav", "input_stdin", "stdin_fed_through_a_real_pipe", "runs_with_unencodable_save_stream_format"]
     out = [f"monitor never observed {k}" for k in need if c.get(k, 0) == 0]
     if c.get("inconclusive_runs", 0) > 2:
         out.append(f"{c['inconclusive_runs']} command-line runs were inconclusive")
